@@ -113,3 +113,549 @@ Proof.
   - rewrite app_nil_r, Hl. reflexivity.
   - rewrite last_app_nonempty by discriminate. unfold no_trailing_space in Hv. now rewrite Hv.
 Qed.
+
+Lemma plf_cons_normal fx base dirsel cap raw rest g out :
+  plf_loop fx base dirsel cap (raw :: rest) g None out =
+  match do_line base (strip raw) g with
+  | SCont g' => plf_loop fx base dirsel cap rest g' None out
+  | SEnd => plf_loop fx base dirsel cap rest (gstart fx dirsel cap) None (emit base g out)
+  | SAbstract g' a =>
+      if negb (str_eqb a []) && last_is 92 a
+      then plf_loop fx base dirsel cap rest g' (Some ([] ++ drop_last a ++ [10])) out
+      else plf_loop fx base dirsel cap rest (set_abstract ([] ++ a) g') None out
+  | SFail e => Raise e
+  end.
+Proof. reflexivity. Qed.
+
+Lemma plf_cons_abs fx base dirsel cap raw rest g acc out :
+  plf_loop fx base dirsel cap (raw :: rest) g (Some acc) out =
+  if negb (str_eqb (strip raw) []) && last_is 92 (strip raw)
+  then plf_loop fx base dirsel cap rest g (Some (acc ++ drop_last (strip raw) ++ [10])) out
+  else plf_loop fx base dirsel cap rest (set_abstract (acc ++ strip raw) g) None out.
+Proof. reflexivity. Qed.
+
+Lemma do_line_name base v g : do_line base (K_NAME ++ v) g = SCont (with_entry (set_name v) g).
+Proof. reflexivity. Qed.
+Lemma do_line_type base c g : do_line base (K_TYPE ++ [c]) g = SCont (with_entry (set_type c) g).
+Proof. reflexivity. Qed.
+Lemma do_line_path base s g : do_line base (K_PATH ++ s) g = SCont (do_path base (K_PATH ++ s) g).
+Proof. reflexivity. Qed.
+Lemma do_line_host base h g : do_line base (K_HOST ++ h) g =
+  if str_eqb h PLUS then SCont g else SCont (with_entry (set_host h) g).
+Proof. reflexivity. Qed.
+Lemma do_line_port base d g : do_line base (K_PORT ++ d) g =
+  if str_eqb d PLUS then SCont g else match py_int d with Some p => SCont (with_entry (set_port p) g) | None => SFail ValueError end.
+Proof. reflexivity. Qed.
+Lemma do_line_numb base d g : do_line base (K_NUMB ++ d) g =
+  match py_int d with Some n => SCont (with_entry (set_num (Some n)) g) | None => SCont g end.
+Proof. reflexivity. Qed.
+Lemma do_line_abstract base a g : do_line base (K_ABSTRACT ++ a) g = SAbstract g a.
+Proof. reflexivity. Qed.
+Lemma do_line_comment base c g : do_line base (35 :: c) g = if g_path g then SEnd else SCont g.
+Proof. reflexivity. Qed.
+
+Lemma strip_trimmed l : trimmed l = true -> strip l = l.
+Proof.
+  destruct l as [|c r]; [reflexivity|]. rewrite trimmed_cons. intros H.
+  apply andb_true_iff in H as [H1 H2]. apply negb_true_iff in H1. apply negb_true_iff in H2.
+  unfold strip. rewrite lstrip_nonspace by exact H1. unfold rstrip.
+  assert (NE : c :: r <> []) by (intro; discriminate).
+  rewrite (rev_last (c :: r) NE), lstrip_nonspace by exact H2.
+  rewrite <- (rev_last (c :: r) NE). apply rev_involutive.
+Qed.
+
+Lemma digit_cases c : is_ascii_digit c = true ->
+  c = 48 \/ c = 49 \/ c = 50 \/ c = 51 \/ c = 52 \/ c = 53 \/ c = 54 \/ c = 55 \/ c = 56 \/ c = 57.
+Proof.
+  unfold is_ascii_digit. intros H. apply andb_true_iff in H as [H1 H2].
+  apply N.leb_le in H1. apply N.leb_le in H2. lia.
+Qed.
+
+Lemma digit_value_ascii c : is_ascii_digit c = true -> digit_value c = Some (c - 48).
+Proof. intros H. destruct (digit_cases c H) as [->|[->|[->|[->|[->|[->|[->|[->|[->| ->]]]]]]]]]; reflexivity. Qed.
+
+Lemma digit_not_space c : is_ascii_digit c = true -> is_space c = false.
+Proof. intros H. destruct (digit_cases c H) as [->|[->|[->|[->|[->|[->|[->|[->|[->| ->]]]]]]]]]; reflexivity. Qed.
+
+Lemma digit_not_sign c : is_ascii_digit c = true -> c <> 43 /\ c <> 45 /\ c <> 95.
+Proof. intros H. destruct (digit_cases c H) as [->|[->|[->|[->|[->|[->|[->|[->|[->| ->]]]]]]]]]; repeat split; discriminate. Qed.
+
+Lemma pyint_aux_digits ds : forall acc, forallb is_ascii_digit ds = true ->
+  pyint_aux acc false ds = Some (fold_left (fun a c => a * 10 + (c - 48)) ds acc).
+Proof.
+  induction ds as [|c r IH]; intros acc H; [reflexivity|].
+  cbn [forallb] in H. apply andb_true_iff in H as [H1 H2].
+  cbn [pyint_aux fold_left]. rewrite (digit_value_ascii c H1). now apply IH.
+Qed.
+
+Lemma all_digits_spec d : all_digits d = true -> d <> [] /\ forallb is_ascii_digit d = true.
+Proof. destruct d; [discriminate|]. intros H. split; [discriminate | exact H]. Qed.
+
+Lemma digits_trimmed d : all_digits d = true -> trimmed d = true.
+Proof.
+  intros H. destruct (all_digits_spec d H) as [NE F]. destruct d as [|c r]; [contradiction|].
+  rewrite trimmed_cons. rewrite forallb_forall in F.
+  rewrite (digit_not_space c) by (apply F; now left).
+  rewrite (digit_not_space (last (c :: r) 0)); [reflexivity|].
+  apply F. rewrite (app_removelast_last 0 NE) at 2. apply in_or_app. right. now left.
+Qed.
+
+Lemma py_int_head_digit c r : is_ascii_digit c = true -> trimmed (c :: r) = true ->
+  py_int (c :: r) = option_map Z.of_N (pyint_aux 0 false (c :: r)).
+Proof.
+  intros Hc T. unfold py_int. rewrite (strip_trimmed _ T).
+  destruct (digit_cases c Hc) as [->|[->|[->|[->|[->|[->|[->|[->|[->| ->]]]]]]]]]; reflexivity.
+Qed.
+
+Lemma py_int_digits d : all_digits d = true -> py_int d = Some (Z.of_N (dec_value d)).
+Proof.
+  intros H. destruct (all_digits_spec d H) as [NE F]. pose proof (digits_trimmed d H) as T.
+  destruct d as [|c r]; [contradiction|].
+  assert (Hc : is_ascii_digit c = true) by (cbn [forallb] in F; now apply andb_true_iff in F as [F _]).
+  rewrite (py_int_head_digit c r Hc T), pyint_aux_digits by exact F. reflexivity.
+Qed.
+
+Lemma py_int_neg d : all_digits d = true -> py_int (45 :: d) = Some (- Z.of_N (dec_value d))%Z.
+Proof.
+  intros H. unfold py_int.
+  destruct (all_digits_spec d H) as [NE F]. pose proof (digits_trimmed d H) as Td.
+  assert (T : trimmed (45 :: d) = true).
+  { rewrite trimmed_cons.
+    change (45 :: d) with ([45] ++ d). rewrite last_app_nonempty by exact NE.
+    destruct d as [|c r]; [contradiction|].
+    rewrite trimmed_cons in Td. apply andb_true_iff in Td as [_ Td]. now rewrite Td. }
+  rewrite (strip_trimmed _ T).
+  destruct d as [|c r]; [contradiction|].
+  assert (Hc : is_ascii_digit c = true) by (cbn [forallb] in F; now apply andb_true_iff in F as [F _]).
+  cbv beta iota. rewrite (digit_value_ascii c Hc). rewrite pyint_aux_digits by exact F. reflexivity.
+Qed.
+
+Definition apply_field (base : str) (f : field) (g : gstate) : gstate :=
+  match f with
+  | FName v => with_entry (set_name v) g
+  | FType c => with_entry (set_type c) g
+  | FPath p =>
+      match p with
+      | PHere n | PTilde n => mkG (set_selector (base ++ [47] ++ n) (g_entry g)) true (g_abs g) true
+      | PRel r => mkG (set_selector r (g_entry g)) (g_merge g) true true
+      | _ => mkG (set_selector (path_str p) (g_entry g)) (g_merge g) (g_abs g) true
+      end
+  | FHost HPlus => g
+  | FHost (HName h) => with_entry (set_host h) g
+  | FPort PtPlus => g
+  | FPort (PtNum d) => with_entry (set_port (Z.of_N (dec_value d))) g
+  | FNumb neg d => with_entry (set_num (numb_of (FNumb neg d))) g
+  | FAbstract conts final =>
+      set_abstract (concat (map (fun c => c ++ [10]) conts) ++ final) g
+  end.
+
+Lemma firstn2_prefix a b r : str_eqb (firstn 2 r) [a; b] = prefixb [a; b] r.
+Proof.
+  destruct r as [|x [|y t]]; try reflexivity.
+  - cbn. rewrite (N.eqb_sym a x). now rewrite !andb_false_r.
+  - cbn. rewrite (N.eqb_sym a x), (N.eqb_sym b y). now rewrite andb_true_r.
+Qed.
+
+Lemma do_path_wf base p g : wf_path p = true ->
+  do_path base (K_PATH ++ path_str p) g = apply_field base (FPath p) g.
+Proof.
+  unfold wf_path. intros H. apply andb_true_iff in H as [H Hs]. apply andb_true_iff in H as [H Hl].
+  apply negb_true_iff in Hl. unfold do_path.
+  change (skipn 5 (K_PATH ++ path_str p)) with (path_str p). rewrite Hl.
+  change (slice 5 7 (K_PATH ++ path_str p)) with (firstn 2 (path_str p)).
+  rewrite !firstn2_prefix.
+  destruct p as [n|n|s|s|r]; simpl apply_field.
+  - reflexivity.
+  - reflexivity.
+  - cbn. destruct (Datatypes.length s); reflexivity.
+  - cbn. reflexivity.
+  - simpl path_str in *.
+    apply andb_true_iff in Hs as [Hs H5]. apply andb_true_iff in Hs as [Hs H4].
+    apply andb_true_iff in Hs as [Hs H3]. apply andb_true_iff in Hs as [H1 H2].
+    apply negb_true_iff in H3. apply negb_true_iff in H4. rewrite H3, H4. rewrite andb_false_r.
+    rewrite H1, H2, H5. reflexivity.
+Qed.
+
+Definition raw_lines (ls : list str) : list str := map (fun l => l ++ [10]) ls.
+
+Lemma trim_name v : no_trailing_space v = true -> trimmed (K_NAME ++ v) = true.
+Proof. exact (trimmed_key_value 78 [97; 109; 101; 61] v eq_refl eq_refl). Qed.
+Lemma trim_type v : no_trailing_space v = true -> trimmed (K_TYPE ++ v) = true.
+Proof. exact (trimmed_key_value 84 [121; 112; 101; 61] v eq_refl eq_refl). Qed.
+Lemma trim_path v : no_trailing_space v = true -> trimmed (K_PATH ++ v) = true.
+Proof. exact (trimmed_key_value 80 [97; 116; 104; 61] v eq_refl eq_refl). Qed.
+Lemma trim_host v : no_trailing_space v = true -> trimmed (K_HOST ++ v) = true.
+Proof. exact (trimmed_key_value 72 [111; 115; 116; 61] v eq_refl eq_refl). Qed.
+Lemma trim_port v : no_trailing_space v = true -> trimmed (K_PORT ++ v) = true.
+Proof. exact (trimmed_key_value 80 [111; 114; 116; 61] v eq_refl eq_refl). Qed.
+Lemma trim_numb v : no_trailing_space v = true -> trimmed (K_NUMB ++ v) = true.
+Proof. exact (trimmed_key_value 78 [117; 109; 98; 61] v eq_refl eq_refl). Qed.
+Lemma trim_abstract v : no_trailing_space v = true -> trimmed (K_ABSTRACT ++ v) = true.
+Proof. exact (trimmed_key_value 65 [98; 115; 116; 114; 97; 99; 116; 61] v eq_refl eq_refl). Qed.
+Lemma trim_comment v : no_trailing_space v = true -> trimmed (35 :: v) = true.
+Proof. exact (trimmed_key_value 35 [] v eq_refl eq_refl). Qed.
+
+Lemma trimmed_of_parts l :
+  match l with [] => true | c :: _ => negb (is_space c) end = true -> no_trailing_space l = true -> trimmed l = true.
+Proof.
+  destruct l as [|c r]; [reflexivity|]. intros H1 H2. rewrite trimmed_cons, H1. exact H2.
+Qed.
+
+Lemma nts_snoc l x : is_space x = false -> no_trailing_space (l ++ [x]) = true.
+Proof.
+  intros H. unfold no_trailing_space. destruct (l ++ [x]) eqn:E.
+  - reflexivity.
+  - rewrite <- E, last_snoc, H. reflexivity.
+Qed.
+
+Lemma digits_nts d : all_digits d = true -> no_trailing_space d = true.
+Proof.
+  intros H. pose proof (digits_trimmed d H) as T. destruct d as [|c r]; [reflexivity|].
+  rewrite trimmed_cons in T. apply andb_true_iff in T as [_ T]. exact T.
+Qed.
+
+Lemma digits_not_plus d : all_digits d = true -> str_eqb d PLUS = false.
+Proof.
+  intros H. destruct (all_digits_spec d H) as [NE F]. destruct d as [|c r]; [contradiction|].
+  cbn [forallb] in F. apply andb_true_iff in F as [Hc _].
+  destruct (digit_not_sign c Hc) as (N1 & _). unfold PLUS. cbn [str_eqb].
+  apply N.eqb_neq in N1. now rewrite N1.
+Qed.
+
+Lemma snoc_not_nil (l : str) x : str_eqb (l ++ [x]) [] = false.
+Proof. destruct l; reflexivity. Qed.
+
+Section Step.
+  Variables (fx : fixes) (base dirsel : str).
+  Notation PLF := (plf_loop fx base dirsel None).
+
+  Lemma line_step l rest g out : trimmed l = true ->
+    PLF ((l ++ [10]) :: rest) g None out =
+    match do_line base l g with
+    | SCont g' => PLF rest g' None out
+    | SEnd => PLF rest (gstart fx dirsel None) None (emit base g out)
+    | SAbstract g' a =>
+        if negb (str_eqb a []) && last_is 92 a
+        then PLF rest g' (Some ([] ++ drop_last a ++ [10])) out
+        else PLF rest (set_abstract ([] ++ a) g') None out
+    | SFail e => Raise e
+    end.
+  Proof. intros T. rewrite plf_cons_normal, (strip_line l T). reflexivity. Qed.
+
+  Lemma abs_step l rest g acc out : trimmed l = true ->
+    PLF ((l ++ [10]) :: rest) g (Some acc) out =
+    if negb (str_eqb l []) && last_is 92 l
+    then PLF rest g (Some (acc ++ drop_last l ++ [10])) out
+    else PLF rest (set_abstract (acc ++ l) g) None out.
+  Proof. intros T. rewrite plf_cons_abs, (strip_line l T). reflexivity. Qed.
+
+  (* continuation lines of an abstract *)
+  Lemma abs_conts cs : forall final rest g acc out,
+    forallb (fun l => match l with [] => true | c :: _ => negb (is_space c) end) (cs ++ [final]) = true ->
+    no_trailing_space final = true -> last_is 92 final = false ->
+    PLF (raw_lines (map (fun l => l ++ [92]) cs ++ [final]) ++ rest) g (Some acc) out =
+    PLF rest (set_abstract (acc ++ concat (map (fun c => c ++ [10]) cs) ++ final) g) None out.
+  Proof.
+    induction cs as [|c cs IH]; intros final rest g acc out F Hn Hl.
+    - cbn [map app raw_lines]. cbn [forallb app] in F. apply andb_true_iff in F as [F _].
+      rewrite abs_step by (now apply trimmed_of_parts). rewrite Hl, andb_false_r. reflexivity.
+    - cbn [map app raw_lines]. change ((c :: cs) ++ [final]) with (c :: (cs ++ [final])) in F.
+      cbn [forallb] in F. apply andb_true_iff in F as [Fc F].
+      rewrite abs_step.
+      2:{ apply trimmed_of_parts; [|now apply nts_snoc].
+          destruct c as [|x r]; [reflexivity | exact Fc]. }
+      rewrite snoc_not_nil, last_is_snoc, drop_last_app. cbn [negb andb N.eqb Pos.eqb].
+      fold (raw_lines (map (fun l => l ++ [92]) cs ++ [final])).
+      rewrite IH by assumption. cbn [map concat]. now rewrite <- !app_assoc.
+  Qed.
+
+  Lemma field_step f rest g out : wf_field f = true ->
+    PLF (raw_lines (field_lines f) ++ rest) g None out = PLF rest (apply_field base f g) None out.
+  Proof.
+    intros W. destruct f as [v|c|p|h|p|neg d|conts final]; cbn [wf_field] in W.
+    - apply andb_true_iff in W as [_ W]. cbn [field_lines raw_lines map app].
+      rewrite line_step by (now apply trim_name). reflexivity.
+    - cbn [field_lines raw_lines map app].
+      rewrite line_step.
+      2:{ apply trim_type. apply andb_true_iff in W as [W _]. apply andb_true_iff in W as [W _].
+          unfold no_trailing_space. cbn [last]. exact W. }
+      reflexivity.
+    - cbn [field_lines raw_lines map app].
+      rewrite line_step.
+      2:{ apply trim_path. unfold wf_path in W. apply andb_true_iff in W as [W _].
+          apply andb_true_iff in W as [W _]. now apply andb_true_iff in W as [_ W]. }
+      rewrite do_line_path, do_path_wf by exact W. reflexivity.
+    - destruct h as [|h].
+      + cbn [field_lines raw_lines map app]. rewrite line_step by (now apply trim_host). reflexivity.
+      + apply andb_true_iff in W as [W Hp]. apply andb_true_iff in W as [_ W].
+        cbn [field_lines raw_lines map app]. rewrite line_step by (now apply trim_host).
+        rewrite do_line_host. apply negb_true_iff in Hp. rewrite Hp. reflexivity.
+    - destruct p as [|d].
+      + cbn [field_lines raw_lines map app]. rewrite line_step by (now apply trim_port). reflexivity.
+      + cbn [field_lines raw_lines map app].
+        rewrite line_step by (apply trim_port; now apply digits_nts).
+        rewrite do_line_port, digits_not_plus, py_int_digits by exact W. reflexivity.
+    - cbn [field_lines raw_lines map app]. destruct neg.
+      + rewrite line_step.
+        2:{ apply trim_numb. pose proof (digits_nts d W) as T.
+            destruct (all_digits_spec d W) as [NE _].
+            destruct d as [|x r]; [contradiction|]. exact T. }
+        rewrite do_line_numb, py_int_neg by exact W. reflexivity.
+      + rewrite line_step by (apply trim_numb; now apply digits_nts).
+        rewrite do_line_numb, py_int_digits by exact W. reflexivity.
+    - apply andb_true_iff in W as [W Fl]. apply andb_true_iff in W as [W Hl].
+      apply andb_true_iff in W as [W Hn]. apply negb_true_iff in Hl.
+      destruct conts as [|c cs].
+      + cbn [field_lines raw_lines map app].
+        rewrite line_step by (now apply trim_abstract).
+        rewrite do_line_abstract, Hl, andb_false_r. reflexivity.
+      + cbn [field_lines]. unfold raw_lines. cbn [map app].
+        rewrite line_step.
+        2:{ apply trim_abstract. now apply nts_snoc. }
+        rewrite do_line_abstract. rewrite snoc_not_nil, last_is_snoc, drop_last_app.
+        cbn [negb andb N.eqb Pos.eqb app].
+        fold (raw_lines (map (fun l => l ++ [92]) cs ++ [final])).
+        change (tl ((c :: cs) ++ [final])) with (cs ++ [final]) in Fl.
+        rewrite abs_conts by assumption. cbn [apply_field map concat]. now rewrite <- !app_assoc.
+  Qed.
+End Step.
+
+(* ---------- a block's fields: sequential reading = finite-map reading ---------- *)
+Definition fold_fields (base : str) (fs : list field) (g : gstate) : gstate :=
+  fold_left (fun g f => apply_field base f g) fs g.
+
+Definition looked_up (base : str) (g : gstate) (fs : list field) : gstate :=
+  let e := g_entry g in
+  mkG (mkEntry
+         (match first_some path_of fs with
+          | None => e_selector e
+          | Some (PHere n) | Some (PTilde n) => base ++ [47] ++ n
+          | Some (PRel r) => r
+          | Some p => path_str p
+          end)
+         (match first_some type_of fs with Some c => Some c | None => e_type e end)
+         (match first_some name_of fs with Some v => Some v | None => e_name e end)
+         (match first_some host_of fs with Some (HName h) => Some h | _ => e_host e end)
+         (match first_some port_of fs with Some (PtNum d) => Some (Z.of_N (dec_value d)) | _ => e_port e end)
+         (match first_some numb_of fs with Some z => Some z | None => e_num e end)
+         (match first_some abstract_of fs with
+          | Some [] | None => e_ea e
+          | Some a => ea_set EA_ABSTRACT a (e_ea e)
+          end)
+         (e_gplus e))
+      (match first_some path_of fs with Some (PHere _) | Some (PTilde _) => true | _ => g_merge g end)
+      (match first_some path_of fs with Some (PRel _) => true | _ => g_abs g end)
+      (match first_some path_of fs with Some _ => true | None => g_path g end).
+
+Lemma first_some_none_key {B} (X : field -> option B) k r :
+  (forall f, X f <> None -> key_of f = k) -> mem_N k (map key_of r) = false -> first_some X r = None.
+Proof.
+  intros HX. induction r as [|f r IH]; [reflexivity|]. cbn [map]. rewrite mem_N_cons.
+  intros H. apply orb_false_iff in H as [H1 H2]. cbn [first_some].
+  destruct (X f) eqn:E.
+  - exfalso. apply N.eqb_neq in H1. apply H1. symmetry. apply HX. congruence.
+  - now apply IH.
+Qed.
+
+Ltac key_none X k :=
+  match goal with
+  | H : mem_N k (map key_of ?r) = false |- _ =>
+      let E := fresh "E" in
+      assert (E : first_some X r = None)
+        by (apply (first_some_none_key X k); [intros [] HX; try reflexivity; exfalso; apply HX; reflexivity | exact H]);
+      rewrite ?E
+  end.
+
+Lemma looked_up_nil base g : looked_up base g [] = g.
+Proof. destruct g as [[]]. reflexivity. Qed.
+
+Lemma fold_fields_looked_up base fs : forall g,
+  distinct (map key_of fs) = true -> fold_fields base fs g = looked_up base g fs.
+Proof.
+  induction fs as [|f r IH]; intros g D.
+  - symmetry. apply looked_up_nil.
+  - cbn [map distinct] in D. apply andb_true_iff in D as [D1 D2]. apply negb_true_iff in D1.
+    unfold fold_fields. cbn [fold_left]. fold (fold_fields base r (apply_field base f g)).
+    rewrite IH by exact D2. unfold looked_up.
+    destruct f as [v|c|p|h|p|neg d|conts final]; cbn [key_of] in D1.
+    + key_none name_of 0%N. cbn. reflexivity.
+    + key_none type_of 1%N. cbn. reflexivity.
+    + key_none path_of 2%N. destruct p; cbn; reflexivity.
+    + key_none host_of 3%N. destruct h; cbn; reflexivity.
+    + key_none port_of 4%N. destruct p; cbn; reflexivity.
+    + key_none numb_of 5%N. cbn. reflexivity.
+    + key_none abstract_of 6%N. cbn [first_some abstract_of apply_field].
+      destruct (concat (map (fun c => c ++ [10]) conts) ++ final) eqn:A; cbn; reflexivity.
+Qed.
+
+Lemma has_path fs : mem_N 2 (map key_of fs) = true -> exists p, first_some path_of fs = Some p.
+Proof.
+  induction fs as [|f r IH]; [discriminate|]. cbn [map]. rewrite mem_N_cons. intros H.
+  destruct f; cbn [first_some path_of]; try (cbn [key_of N.eqb Pos.eqb orb] in H; now apply IH).
+  eauto.
+Qed.
+
+(* the entry getLinkItem returns for a block = the reference reading *)
+Lemma gfinish_block fx base dirsel b :
+  wf_block b = true ->
+  gfinish base (fold_fields base (sb_fields b) (gstart fx dirsel None)) =
+  Some (default_num fx (spec_lentry base dirsel b)).
+Proof.
+  unfold wf_block. intros W. apply andb_true_iff in W as [W HP]. apply andb_true_iff in W as [_ D].
+  rewrite (fold_fields_looked_up base _ _ D).
+  destruct (has_path _ HP) as [p EP].
+  unfold gfinish, looked_up, spec_lentry, default_num. rewrite EP. cbn [g_path g_abs g_merge g_entry gstart].
+  unfold fresh_link, fresh_entry, set_num. cbn [e_selector e_type e_name e_host e_port e_num e_ea e_gplus].
+  assert (eta : forall A (o : option A), match o with Some c => Some c | None => None end = o)
+    by (intros ? []; reflexivity).
+  rewrite !eta.
+  destruct (first_some numb_of (sb_fields b)) as [z|];
+  destruct (first_some host_of (sb_fields b)) as [[|h]|];
+  destruct (first_some port_of (sb_fields b)) as [[|d]|];
+  destruct (first_some abstract_of (sb_fields b)) as [[|a0 a]|];
+  destruct p; cbn; reflexivity.
+Qed.
+
+Section Whole.
+  Variables (fx : fixes) (base dirsel : str).
+  Notation PLF := (plf_loop fx base dirsel None).
+
+  Lemma raw_lines_app a b : raw_lines (a ++ b) = raw_lines a ++ raw_lines b.
+  Proof. apply map_app. Qed.
+
+  Lemma fields_step fs : forall rest g out, forallb wf_field fs = true ->
+    PLF (raw_lines (concat (map field_lines fs)) ++ rest) g None out =
+    PLF rest (fold_fields base fs g) None out.
+  Proof.
+    induction fs as [|f r IH]; intros rest g out W; [reflexivity|].
+    cbn [forallb] in W. apply andb_true_iff in W as [W1 W2].
+    cbn [map concat]. rewrite raw_lines_app, <- app_assoc.
+    rewrite (field_step fx base dirsel f _ g out W1). now rewrite IH.
+  Qed.
+
+  Lemma comments_step cs : forall rest g out,
+    g_path g = false -> forallb (fun c => no_eol c && no_trailing_space c) cs = true ->
+    PLF (raw_lines (map (fun c => 35 :: c) cs) ++ rest) g None out = PLF rest g None out.
+  Proof.
+    induction cs as [|c r IH]; intros rest g out P W; [reflexivity|].
+    cbn [forallb] in W. apply andb_true_iff in W as [W1 W2]. apply andb_true_iff in W1 as [_ W1].
+    cbn [map raw_lines app].
+    rewrite (line_step fx base dirsel (35 :: c) _ g out (trim_comment c W1)).
+    rewrite do_line_comment, P. fold (raw_lines (map (fun c => 35 :: c) r)). now apply IH.
+  Qed.
+
+  Lemma block_step b rest g out : wf_block b = true -> g_path g = false ->
+    PLF (raw_lines (block_lines b) ++ rest) g None out =
+    PLF rest (fold_fields base (sb_fields b) g) None out.
+  Proof.
+    unfold wf_block. intros W P. apply andb_true_iff in W as [W _]. apply andb_true_iff in W as [W _].
+    apply andb_true_iff in W as [Wc Wf].
+    unfold block_lines. rewrite raw_lines_app, <- app_assoc.
+    rewrite comments_step by assumption. now apply fields_step.
+  Qed.
+
+  Definition read_block (b : sblock) : lentry := default_num fx (spec_lentry base dirsel b).
+
+  Lemma lf_parse lf : forall out, wf_linkfile lf = true ->
+    PLF (raw_lines (lf_lines lf)) (gstart fx dirsel None) None out = Ok (rev out ++ map read_block lf).
+  Proof.
+    induction lf as [|b r IH]; intros out W.
+    - cbn. now rewrite app_nil_r.
+    - cbn [wf_linkfile forallb] in W. apply andb_true_iff in W as [Wb Wr].
+      assert (E : emit base (fold_fields base (sb_fields b) (gstart fx dirsel None)) out = read_block b :: out).
+      { unfold emit. now rewrite (gfinish_block fx base dirsel b Wb). }
+      destruct r as [|b2 r'].
+      + cbn [lf_lines]. rewrite <- (app_nil_r (raw_lines (block_lines b))).
+        rewrite block_step by (trivial). cbn [plf_loop]. rewrite E. cbn [rev map]. reflexivity.
+      + change (lf_lines (b :: b2 :: r')) with (block_lines b ++ [] :: lf_lines (b2 :: r')).
+        rewrite raw_lines_app. rewrite block_step by trivial.
+        change (raw_lines ([] :: lf_lines (b2 :: r'))) with (([] ++ [10]) :: raw_lines (lf_lines (b2 :: r'))).
+        rewrite (line_step fx base dirsel [] _ _ out eq_refl). cbn [do_line]. rewrite E.
+        rewrite (IH (read_block b :: out) Wr). cbn [rev map]. now rewrite <- app_assoc.
+  Qed.
+End Whole.
+
+(* ---------- from text to lines ---------- *)
+Lemma no_eol_app a b : no_eol (a ++ b) = no_eol a && no_eol b.
+Proof.
+  unfold no_eol. rewrite !mem_N_app.
+  destruct (mem_N 10 a), (mem_N 10 b), (mem_N 13 a), (mem_N 13 b); reflexivity.
+Qed.
+
+Lemma digits_no_eol d : all_digits d = true -> no_eol d = true.
+Proof.
+  intros H. destruct (all_digits_spec d H) as [_ F]. clear H.
+  induction d as [|c r IH]; [reflexivity|]. cbn [forallb] in F. apply andb_true_iff in F as [Hc F].
+  change (c :: r) with ([c] ++ r). rewrite no_eol_app, (IH F), andb_true_r.
+  destruct (digit_cases c Hc) as [->|[->|[->|[->|[->|[->|[->|[->|[->| ->]]]]]]]]]; reflexivity.
+Qed.
+
+Lemma forallb_app' {A} (f : A -> bool) a b : forallb f (a ++ b) = forallb f a && forallb f b.
+Proof. induction a as [|x r IH]; [reflexivity|]. cbn [app forallb]. now rewrite IH, andb_assoc. Qed.
+
+Lemma field_lines_no_eol f : wf_field f = true -> forallb no_eol (field_lines f) = true.
+Proof.
+  intros W. destruct f as [v|c|p|h|p|neg d|conts final]; cbn [wf_field] in W.
+  - apply andb_true_iff in W as [W _]. cbn [field_lines forallb]. rewrite no_eol_app, W. reflexivity.
+  - cbn [field_lines forallb]. rewrite no_eol_app.
+    apply andb_true_iff in W as [W W13]. apply andb_true_iff in W as [_ W10].
+    apply negb_true_iff in W13. apply negb_true_iff in W10.
+    unfold no_eol at 2. cbn [mem_N]. rewrite (N.eqb_sym 10 c), (N.eqb_sym 13 c), W10, W13. reflexivity.
+  - cbn [field_lines forallb]. rewrite no_eol_app. unfold wf_path in W.
+    apply andb_true_iff in W as [W _]. apply andb_true_iff in W as [W _]. apply andb_true_iff in W as [W _].
+    rewrite W. reflexivity.
+  - destruct h as [|h]; [reflexivity|]. apply andb_true_iff in W as [W _]. apply andb_true_iff in W as [W _].
+    cbn [field_lines forallb]. rewrite no_eol_app, W. reflexivity.
+  - destruct p as [|d]; [reflexivity|]. cbn [field_lines forallb]. rewrite no_eol_app, (digits_no_eol d W). reflexivity.
+  - cbn [field_lines forallb]. rewrite no_eol_app. destruct neg.
+    + change (45 :: d) with ([45] ++ d). rewrite no_eol_app, (digits_no_eol d W). reflexivity.
+    + rewrite (digits_no_eol d W). reflexivity.
+  - apply andb_true_iff in W as [W _]. apply andb_true_iff in W as [W _].
+    apply andb_true_iff in W as [W _]. apply andb_true_iff in W as [Wc Wf].
+    destruct conts as [|c cs].
+    + cbn [field_lines forallb]. rewrite no_eol_app, Wf. reflexivity.
+    + cbn [forallb] in Wc. apply andb_true_iff in Wc as [Wc1 Wc2].
+      assert (M : forallb no_eol (map (fun l => l ++ [92]) cs) = true).
+      { clear - Wc2. induction cs as [|x r IH]; [reflexivity|].
+        cbn [forallb] in Wc2. apply andb_true_iff in Wc2 as [H1 H2].
+        cbn [map forallb]. rewrite no_eol_app, H1, (IH H2). reflexivity. }
+      cbn [field_lines forallb]. rewrite !no_eol_app, Wc1. cbn [andb].
+      rewrite forallb_app', M. cbn [forallb]. rewrite Wf. reflexivity.
+Qed.
+
+Lemma block_lines_no_eol b : wf_block b = true -> forallb no_eol (block_lines b) = true.
+Proof.
+  unfold wf_block. intros W. apply andb_true_iff in W as [W _]. apply andb_true_iff in W as [W _].
+  apply andb_true_iff in W as [Wc Wf]. unfold block_lines. rewrite forallb_app'. apply andb_true_iff. split.
+  - clear Wf. induction (sb_comments b) as [|c r IH]; [reflexivity|].
+    cbn [forallb] in Wc. apply andb_true_iff in Wc as [H1 H2]. apply andb_true_iff in H1 as [H1 _].
+    cbn [map forallb]. change (35 :: c) with ([35] ++ c). rewrite no_eol_app, H1, (IH H2). reflexivity.
+  - clear Wc. induction (sb_fields b) as [|f r IH]; [reflexivity|].
+    cbn [forallb] in Wf. apply andb_true_iff in Wf as [H1 H2].
+    cbn [map concat]. rewrite forallb_app', (field_lines_no_eol f H1), (IH H2). reflexivity.
+Qed.
+
+Lemma lf_lines_no_eol lf : wf_linkfile lf = true -> forallb no_eol (lf_lines lf) = true.
+Proof.
+  induction lf as [|b r IH]; [reflexivity|]. intros W. cbn [wf_linkfile forallb] in W.
+  apply andb_true_iff in W as [Wb Wr]. destruct r as [|b2 r'].
+  - cbn [lf_lines]. now apply block_lines_no_eol.
+  - change (lf_lines (b :: b2 :: r')) with (block_lines b ++ [] :: lf_lines (b2 :: r')).
+    rewrite forallb_app'. cbn [forallb]. rewrite (block_lines_no_eol b Wb). now rewrite (IH Wr).
+Qed.
+
+Theorem parse_wf_blocks fx base dirsel lf :
+  wf_linkfile lf = true ->
+  process_link_file fx base dirsel None (render_linkfile lf) =
+  Ok (map (fun b => default_num fx (spec_lentry base dirsel b)) lf).
+Proof.
+  intros W. pose proof (lf_lines_no_eol lf W) as NE. unfold process_link_file, render_linkfile.
+  rewrite universal_newlines_id.
+  2:{ rewrite mem_N_concat_lines. apply not_true_is_false. intro E. apply existsb_exists in E as (l & I & El).
+      rewrite forallb_forall in NE. specialize (NE l I). unfold no_eol in NE.
+      apply andb_true_iff in NE as [_ N13]. apply negb_true_iff in N13. rewrite N13 in El. discriminate. }
+  rewrite lines_keepends_lines.
+  2:{ apply forallb_forall. intros l I. rewrite forallb_forall in NE. specialize (NE l I). unfold no_eol in NE.
+      now apply andb_true_iff in NE as [N10 _]. }
+  fold (raw_lines (lf_lines lf)). rewrite (lf_parse fx base dirsel lf [] W). reflexivity.
+Qed.
